@@ -51,7 +51,9 @@ def keep(r):
         return "-r11f" in name
     if sel == "round12":
         return "-r12k" in name
-    return not name.startswith("refactor-") and not any(t in name for t in ("-r2m", "-r3m", "-r4m", "-r5m", "-r6m", "-r7m", "-r8g", "-r9h", "-r10e", "-r11f", "-r12k"))
+    if sel == "round13":
+        return "-r13n" in name
+    return not name.startswith("refactor-") and not any(t in name for t in ("-r2m", "-r3m", "-r4m", "-r5m", "-r6m", "-r7m", "-r8g", "-r9h", "-r10e", "-r11f", "-r12k", "-r13n"))
 if sel == "refactor":
     print("| refactoring | change (behaviour preserving; the suite passes) | checks that raise an alarm |")
 else:
